@@ -320,8 +320,9 @@ func (g *gen) emitNestStub3(xs []*xf) {
 	st = &stub3{sphReply: c.Rng.Intn(2) == 0}
 	tc = wrapCollider3(xs, st)
 	got1 := tc.SphereCollision(ctr, rad)
-	c.Emit(fmt.Sprintf("c05 nest.sphin3 %s %s %s %s", tok, p3s(ctr), rs(rad), bstr(st.sphReply)),
-		p3s(st.sphC[0])+" "+rs(st.sphR[0])+" "+bstr(got1))
+	if seen, ok := sphSeen3(c, st, xs, ctr, rad, got1); ok {
+		c.Emit(fmt.Sprintf("c05 nest.sphin3 %s %s %s %s", tok, p3s(ctr), rs(rad), bstr(st.sphReply)), seen)
+	}
 	c.Emit(fmt.Sprintf("c05 nest.cbounds3 %s %s %s", tok, p3s(st.Min()), p3s(st.Max())), p3s(tc.Min())+" "+p3s(tc.Max()))
 }
 
@@ -378,8 +379,12 @@ func (g *gen) emitNestColl3(xs []*xf, col model3d.Collider, cname string, ir mod
 	}))
 	q := g.inBox3(col.Min().AddScalar(-1), col.Max().AddScalar(1))
 	rad := math.Abs(g.dy())
+	if g.c.Rng.Intn(2) == 0 {
+		q, rad = g.sphereOutside3(col)
+	}
 	iq := applyAll3(xs, q)
 	orad := applyAll3(xs, q.Add(model3d.X(rad))).Dist(iq)
+	g.statSphere3("nest.sphc3", col, q, rad, orad)
 	want := col.SphereCollision(q, rad)
 	c.Stat("nest.sphc3.inner."+bstr(want), 1)
 	c.Emit(fmt.Sprintf("c05 nest.sphc3 %s %s %s %s %s %s", tok, p3s(iq), rs(orad), p3s(q), rs(rad), bstr(want)),
